@@ -1,6 +1,6 @@
 use std::{
   cmp::{max, min},
-  collections::{BTreeMap, HashMap},
+  collections::{BTreeMap, BTreeSet, HashMap},
   ops::Bound::{Excluded, Included},
   sync::{Arc, Mutex},
 };
@@ -151,6 +151,14 @@ pub(crate) struct TopicCache {
   // be (or later appear) in this cache, because another local Reader got it.
   // The ranges of one key do not overlap or touch.
   irrelevant_to_reader: BTreeMap<(GUID, GUID), BTreeMap<SequenceNumber, SequenceNumber>>,
+
+  // Changes that have so far arrived only in submessages addressed to one
+  // particular local Reader (repairs, e.g. the history sent to a TransientLocal
+  // late joiner), by reception instant of the change, with the Readers they
+  // were addressed to. A change that is not listed here has been sent to
+  // every Reader. Best-effort DataReaders read the cache by instant, and must
+  // not see what was sent to some other Reader of the topic only.
+  addressed_only_to: BTreeMap<Timestamp, BTreeSet<GUID>>,
 }
 
 impl TopicCache {
@@ -167,6 +175,7 @@ impl TopicCache {
       sequence_numbers: BTreeMap::new(),
       received_reliably_before: BTreeMap::new(),
       irrelevant_to_reader: BTreeMap::new(),
+      addressed_only_to: BTreeMap::new(),
     };
 
     new_self.update_keep_limits(topic_qos);
@@ -291,6 +300,38 @@ impl TopicCache {
       });
   }
 
+  /// Like `add_change`, but also notes to whom the change was addressed:
+  /// `Some(reader)`, if the submessage named that Reader, `None` if it was for
+  /// every Reader. Another Reader may have added the same change already.
+  pub fn add_change_addressed_to(
+    &mut self,
+    instant: &Timestamp,
+    cache_change: CacheChange,
+    addressed_to: Option<GUID>,
+  ) {
+    match (self.find_by_sn(&cache_change), addressed_to) {
+      (Some(old_instant), Some(reader)) => {
+        // No entry means everybody already
+        if let Some(readers) = self.addressed_only_to.get_mut(&old_instant) {
+          readers.insert(reader);
+        }
+      }
+      (Some(old_instant), None) => {
+        self.addressed_only_to.remove(&old_instant);
+      }
+      (None, _) => {}
+    }
+    let is_new = self.find_by_sn(&cache_change).is_none();
+    self.add_change(instant, cache_change); // just logs, if we have it already
+    if let (true, Some(reader)) = (is_new, addressed_to) {
+      if self.changes.contains_key(instant) {
+        self
+          .addressed_only_to
+          .insert(*instant, BTreeSet::from([reader]));
+      }
+    }
+  }
+
   fn add_change_internal(
     &mut self,
     instant: &Timestamp,
@@ -366,6 +407,26 @@ impl TopicCache {
         .changes
         .range((Excluded(start_instant), Included(end_instant)))
         .map(|(i, c)| (*i, c)),
+    )
+  }
+
+  /// Best-effort view of one Reader: leaves out what was addressed to other
+  /// Readers only.
+  pub fn get_changes_in_range_best_effort_for(
+    &self,
+    reader: GUID,
+    start_instant: Timestamp,
+    end_instant: Timestamp,
+  ) -> Box<dyn Iterator<Item = (Timestamp, &CacheChange)> + '_> {
+    Box::new(
+      self
+        .get_changes_in_range_best_effort(start_instant, end_instant)
+        .filter(move |(i, _)| {
+          self
+            .addressed_only_to
+            .get(i)
+            .map_or(true, |readers| readers.contains(&reader))
+        }),
     )
   }
 
@@ -483,6 +544,11 @@ impl TopicCache {
 
     // update also SequenceNumber map
     to_remove.values().for_each(|r| self.remove_sn(r));
+    // and forget to whom the removed ones were addressed
+    self.addressed_only_to = match self.changes.keys().next() {
+      Some(first_retained) => self.addressed_only_to.split_off(first_retained),
+      None => BTreeMap::new(),
+    };
 
     // Now, reallocate old cache changes
     let reallocate_timeout = crate::Duration::from_secs(5);
